@@ -75,6 +75,7 @@ func checkC05(r *Run) {
 		exploreConc(r, g3, "", 30*time.Minute)
 	}
 	runSingleLoadPerRead(r)
+	runWriterAfterEndings(r)
 	runStressD2(r)
 	runProtoProofs(r)
 	r.assumption("the TLAPS / Apalache results are about the reduced protocol FoxProto, which FoxConc is checked to refine on the bounded instances")
@@ -89,6 +90,7 @@ func checkC06(r *Run) {
 	}
 	runWritersVsHeldReaders(r)
 	runReadersVsHeldWriters(r)
+	runWriterAfterEndings(r)
 	r.assumption("a write that does not return within 3 s while a read is held in flight is a wait")
 	r.assumption("a read that does not complete within 5 s while a writer is parked, and completes once the writer is released, is a wait")
 }
